@@ -27,7 +27,7 @@ def failed_dump(sym, fmt, position, attr, rule, maxlen, k, preexisting, any_valu
             os.link(path, path + ".hardlink")          # compose tooling hardlinks metadata into other trees
     before = read_bytes(path)
     kind = sym.choice("kind", KINDS)
-    v = make_value(sym, kind, "v", maxlen)
+    v = make_value(sym, kind, "v", maxlen, rule)
     dom = in_domain(sym, rule, kind, v)
     if not any_value:
         if dom is None or dom is True:
